@@ -575,7 +575,7 @@ def rule_X1(ctx) -> None:
             else:
                 ctx.refuted("X1", f"get_type_reference-call@{_enclosing_name(mod, n)}:imports_end", ast.unparse(imp) if imp is not None else "none", mod.loc(n),
                             "this type reference does not register its import line in the output file's imports_end: the generated module lacks the import")
-    ctx.floor("X1", "get_type_reference call sites", n_calls, 3)
+    ctx.floor("X1", "get_type_reference call sites", n_calls, 1)     # helpers may merge the call sites; each remaining one is checked
     # the template renders every element of imports_end at module level, unconditionally
     loops = [f for f in tm.body.find_all(jn.For) if jtext(f.iter).split("|")[0] == "output_file.imports_end"]
     if len(loops) != 1:
